@@ -212,6 +212,8 @@ def Unit.after (u : Unit) (e : Ev) : List EvHandler :=
   | .remember, .oauth2 => [rememberAfterAuth]
   | .remember, .recoverEnd => [rememberAfterReset]
   | .expire, .auth => [expireAfterAuth]
+  | .expire, .oauth2 => [expireAfterAuth]       -- (after the `fix:`: the OAuth2 callback and the
+  | .expire, .register => [expireAfterAuth]     --  registration login start the idle clock too)
   | _, _ => []
 
 /-- `Events.call`: every handler runs (no short-circuit on `handled`), an error stops. -/
